@@ -215,7 +215,21 @@ func TestC07_Concurrent(t *testing.T) {
 					arr[k] = jv.VInt(int64(100*i + 10*salt + k))
 				}
 				obj := jv.VObj([]jv.Member{{K: "id", V: jv.VInt(int64(1000*i + salt))}, {K: "pad", V: jv.VStr(strings.Repeat("p", n+20))}, {K: "list", V: jv.VArr(arr[:5])}})
+				strs := make([]jv.Val, n)
+				for k := range strs {
+					strs[k] = jv.VStr("name-" + strconv.Itoa((k*37+i)%n))
+				}
+				needle := strs[rapid.IntRange(0, n-1).Draw(t, "needle")]
 				e = &ast.Chain{Head: ast.Head{Kind: ast.HMultiList, Items: []ast.Expr{
+					// built-ins applied to a long literal of the shared Expression
+					// (anything derived from a literal lazily and kept on the
+					// node is then built by several goroutines at once)
+					ast.Call("contains", ast.A(ast.Lit(jv.VArr(strs))), ast.A(ast.Lit(needle))),
+					ast.Call("contains", ast.A(ast.Lit(jv.VArr(strs))), ast.A(ast.RawS("absent"))),
+					ast.Call("sort", ast.A(ast.Lit(jv.VArr(strs)))).With(ast.Step{Kind: ast.SIndex, Index: 0}),
+					ast.Call("length", ast.A(ast.Call("join", ast.A(ast.RawS(",")), ast.A(ast.Lit(jv.VArr(strs)))))),
+					ast.Call("max", ast.A(ast.Lit(jv.VArr(arr)))),
+					ast.Lit(jv.VArr(arr)).With(ast.Step{Kind: ast.SFilter, Cond: ast.Bin(">", ast.Cur(), ast.Lit(jv.VInt(int64(100*i+10*salt+n/2))))}, ast.Step{Kind: ast.SIndex, Index: 0}),
 					ast.Lit(jv.VArr(arr)).With(ast.Step{Kind: ast.SIndex, Index: int64(rapid.IntRange(0, n-1).Draw(t, "litidx"))}),
 					ast.Lit(obj).With(ast.Step{Kind: ast.SField, Name: "id"}),
 					ast.Call("length", ast.A(ast.Lit(jv.VStr(strings.Repeat("s", 64+i+salt))))),
